@@ -544,7 +544,7 @@ func init() {
 			}
 			return k, len(c.Code) > 0
 		},
-		Quick: 5000, Thorough: 60000,
+		Quick: 5000, Thorough: 60000, FuzzSecs: 45,
 	})
 	vs.Register(vs.Prop[c30Late]{
 		Name: "C30/late",
